@@ -186,26 +186,58 @@ def l0(ctx, tag, extends, defs, cfg, timeout=1800, workers=None, heap="8g", expe
 
 
 # ------------------------------------------------------------------ trace validation
+_SID = re.compile(r'^\{"id":\d+,"sid":(-?\d+),')
+
+
 def split_trace(path, nshards):
-    """Split an NDJSON trace (header line first) into shards that each start with the header."""
+    """Split an NDJSON trace (header line first) into shards that each start with the header.
+
+    Records of the engine-based drivers carry "sid"; in a closure (mode explore) the records of one state are
+    contiguous and are exactly the operations the driver applied in that state.  Every such record gets a field
+    "g": the size of its group on the group's first record, 0 elsewhere (and everywhere in other modes), and shards
+    are cut between groups only - the trace specifications compare the group with the model's own OpSet."""
     with open(path) as f:
         header = f.readline()
         lines = f.readlines()
     n = len(lines)
     if n == 0:
         return [], 0
+    explore = '"mode":"explore"' in header
+    starts = [0]                      # indexes where a shard may begin
+    if lines and _SID.match(lines[0]):
+        i = 0
+        while i < n:
+            m = _SID.match(lines[i])
+            j = i + 1
+            if m and explore:
+                while j < n:
+                    m2 = _SID.match(lines[j])
+                    if not m2 or m2.group(1) != m.group(1):
+                        break
+                    j += 1
+            for k in range(i, j):
+                mk = _SID.match(lines[k])
+                if mk:
+                    lines[k] = lines[k][:mk.end()] + ('"g":%d,' % ((j - i) if (k == i and explore) else 0)) + lines[k][mk.end():]
+            if i:
+                starts.append(i)
+            i = j
+    else:
+        starts = list(range(n))
     nshards = max(1, min(nshards, (n + 199) // 200))
     per = (n + nshards - 1) // nshards
-    out = []
-    for s in range(nshards):
-        chunk = lines[s * per:(s + 1) * per]
-        if not chunk:
-            break
-        p = Path(str(path) + f".s{s}")
-        with open(p, "w") as f:
-            f.write(header)
-            f.writelines(chunk)
-        out.append(p)
+    out, begin, s = [], 0, 0
+    bounds = starts[1:] + [n]
+    last = 0
+    for b in bounds:
+        if b - begin >= per or b == n:
+            p = Path(str(path) + f".s{s}")
+            with open(p, "w") as f:
+                f.write(header)
+                f.writelines(lines[begin:b])
+            out.append(p)
+            s += 1
+            begin = b
     return out, n
 
 
@@ -240,6 +272,10 @@ def validate(ctx, tag, trace_module, defs, consts, trace, levels=(1, 2), shards=
                 res["l2"].append((parts_[1], int(parts_[2])))
             elif parts_[0] == "L1DRIFT":
                 res["l1"].append(int(parts_[2]))
+            elif parts_[0] == "OPSDIFF":
+                # in this state the driver did not apply exactly the operations of the model's OpSet
+                res["l1"].append(int(parts_[2]))
+                res.setdefault("opsdiff", []).append(int(parts_[2]))
         if not (r.rc == 0 and ended):
             if lv == 1:
                 # the concrete model could not even be evaluated on a logged state:
